@@ -128,7 +128,7 @@ def named(draw):
 @st.composite
 def short(draw):
     ante = draw(st.sampled_from(["", "N, ", "N "])).replace("N", draw(_name))
-    tail = draw(st.sampled_from(["", "-N", " n. 3"])).replace("N", draw(_num))
+    tail = draw(st.sampled_from(["", "-N", " n. 3", "", ", § N", " § N"])).replace("N", draw(_num))
     par = draw(_paren) if draw(st.integers(0, 2)) == 0 else ""
     return f"{ante}{draw(_num)} {draw(reporter())}{draw(st.sampled_from([',', '']))} at {draw(_num)}{tail}{par}"
 
@@ -142,20 +142,72 @@ def short_parallel(draw):
 @st.composite
 def supra(draw):
     n = draw(_num)
-    tail = draw(st.sampled_from([",", "", ".", ", at N", " at N", ", at N-M"])).replace("N", n).replace("M", draw(_num))
+    tail = draw(st.sampled_from([",", "", ".", ", at N", " at N", ", at N-M", ", § N", ", §§ N, M", " at § N"])).replace("N", n).replace("M", draw(_num))
     return f"{draw(_name)}, {draw(st.sampled_from(['', n + ' ']))}supra{tail}"
 
 
 @st.composite
 def idc(draw):
     n = draw(_num)
-    tail = draw(st.sampled_from([" at N", "", " at N-M", " ¶ N", " at *N", ", at N", " at N (same)"])).replace("N", n).replace("M", draw(_num))
+    tail = draw(st.sampled_from([" at N", "", " at N-M", " ¶ N", " at *N", ", at N", " at N (same)", " § N", " at § N", " §§ N, M", " at N-M"])).replace("N", n).replace("M", draw(_num))
     return draw(st.sampled_from(["Id.", "id.", "Ibid.", "Id.,", "ibid."])) + tail
 
 
 @st.composite
 def ref(draw):
     return f"{draw(_name)} at {draw(_num)}"
+
+
+_PATTERN_STRINGS = []
+
+
+def pattern_strings():
+    """Strings derived from every citation extractor's own pattern (full and short forms of every template,
+    including the special ones: neutral cites, nominative forms, statutes), one per alternative for the first few
+    alternatives. Each is confirmed to match its pattern; built once per process."""
+    if not _PATTERN_STRINGS:
+        from eyecite.tokenizers import EXTRACTORS
+
+        from . import regexgen
+
+        seen = set()
+        for e in EXTRACTORS[:-5]:
+            cands = list(regexgen.alternatives(e.regex, e.flags, limit=80))
+            # the default derivation, a few alternation choices, and the optional parts (they come last)
+            pick = {0, 1, len(cands) // 2, len(cands) - 3, len(cands) - 2, len(cands) - 1}
+            for i in sorted(i for i in pick if 0 <= i < len(cands)):
+                m = e.compiled_regex.search(cands[i])
+                if m and m.group(1).strip() and m.group(1).strip() not in seen:
+                    seen.add(m.group(1).strip())
+                    _PATTERN_STRINGS.append(m.group(1).strip())
+    return _PATTERN_STRINGS
+
+
+@st.composite
+def pattern_citation(draw):
+    s = draw(st.sampled_from(pattern_strings()))
+    # vary the numbers a little so that volumes / pages are not always '1'
+    if draw(st.booleans()):
+        d = draw(st.sampled_from(["2", "7", "12", "345"]))
+        s = s.replace("1", d, 1)
+    j = draw(st.integers(0, 7))
+    if j == 0:
+        return f"{draw(_name)} v. {draw(_name)}, {s} ({draw(_year)})"
+    if j == 1:
+        return f"{s}{draw(pin())} ({draw(_court)}{draw(_year)}){draw(_paren)}"
+    if j == 2:
+        return f"{draw(_name)}, {s}{draw(st.sampled_from(['.', ';', ',', ' (same).', '']))}"
+    if j == 3:
+        return f"{s}{draw(st.sampled_from(['(a)', '(a)(2)', '(1)', ' et seq.', '(b) and (c)']))}"
+    return s
+
+
+@st.composite
+def law(draw):
+    base = draw(st.one_of(st.sampled_from(LAWS), st.sampled_from([e for e, src in inv.examples() if src == "laws"])))
+    sub = draw(st.sampled_from(["", "", "(a)", "(a)(2)", "(1)", "(b)(1)(A)", " et seq.", "(a) and (b)"]))
+    post = draw(st.sampled_from(["", "", " (1999)", " (West 2009)", " (McKinney May 2, 1999)", " (Supp. 2012)", " (repealed)"]))
+    return base + sub + post
 
 
 @st.composite
@@ -175,10 +227,24 @@ def fragment(draw, hostile=True, multibyte=False):
         return draw(idc())
     if k < 71:
         return draw(ref())
-    if k < 76:
-        return draw(st.sampled_from(LAWS))
-    if k < 80:
+    if k < 72:
+        return draw(law())
+    if k < 74:
         return draw(st.sampled_from(JOUR))
+    if k < 77:
+        return draw(pattern_citation())
+    if k < 80:
+        # a reporters-db example citation (covers the special templates: neutral cites, nominative forms, statutes),
+        # bare, named, or followed by a year / pin / parenthetical
+        ex = draw(st.sampled_from(inv.examples()))[0]
+        j = draw(st.integers(0, 5))
+        if j == 0:
+            return f"{draw(_name)} v. {draw(_name)}, {ex} ({draw(_year)})"
+        if j == 1:
+            return f"{ex}{draw(pin())} ({draw(_court)}{draw(_year)}){draw(_paren)}"
+        if j == 2:
+            return f"{draw(_name)}, {ex}"
+        return ex
     if k < 84:
         return draw(st.sampled_from(STOPS))
     if k < 94 or not (hostile or multibyte):
